@@ -2,6 +2,8 @@
    Model: Model/Convert.v (data/convert.go), Model/Values.v (data/value.go).  Spec: Spec/ConvertSpec.v.
    [hi] is unicode.ToLower above ASCII (any function); [lc] is StructOptions.LowerCamel. *)
 From Coq Require Import Permutation.
+(* source tie by translation: the lemmas of these files are obligations of this property *)
+From Soy Require Import Proofs.SourceTieData.
 From Soy Require Import Model.Bytes Model.Num Model.Outcome Model.Utf8 Model.Values Model.Convert
   Spec.ConvertSpec Generated.Tables Proofs.ValueProofs Proofs.ConvertProofs Proofs.ValueTieProofs.
 Open Scope N_scope.
